@@ -30,6 +30,7 @@ ASSUMPTIONS = [
     "tempfile.tempdir is pointed at a monitored scratch directory for the duration of a case.",
     "Schema strings are only demanded to parse word-like strings, integers, plain decimals and booleans.",
 ]
+MANIFEST = {"technique": 'runtime monitoring: FS-call monitor (P-readonly source, P-contain target / job directories / temp dir) + round-trip oracle', "engine": 'fs-call monitor (audit hook)'}
 TIME_CAP = {"quick": 80, "thorough": 1500}
 
 TARGETS = ["dir", ".zip", ".tar", ".tar.gz", ".tar.bz2", ".tar.xz"]
